@@ -54,13 +54,17 @@ def root_name(e):
     return e.id if isinstance(e, ast.Name) else None
 
 
+PACKAGE_CLASSES = set()      # classes defined in the package other than Node (filled by inventory): constructing one yields a fresh object
+COLLECTOR_PARAMS = set()     # (module, function, parameter): every call site in the package passes a fresh local / a collector of the caller
+
+
 def fresh_locals(fn):
     fresh = set()
     for n in ast.walk(fn):
         if isinstance(n, ast.Assign) and len(n.targets) == 1 and isinstance(n.targets[0], ast.Name):
             v = n.value
             if isinstance(v, (ast.List, ast.Dict, ast.ListComp, ast.DictComp, ast.Constant, ast.JoinedStr, ast.BinOp, ast.Tuple, ast.Set)) or \
-               (isinstance(v, ast.Call) and isinstance(v.func, ast.Name) and v.func.id in FRESH_CALLS) or \
+               (isinstance(v, ast.Call) and isinstance(v.func, ast.Name) and (v.func.id in FRESH_CALLS or v.func.id in PACKAGE_CLASSES)) or \
                (isinstance(v, ast.Call) and isinstance(v.func, ast.Attribute) and v.func.attr in FRESH_METHODS):
                 fresh.add(n.targets[0].id)
     params = {a.arg for a in fn.args.args + fn.args.kwonlyargs}
@@ -88,7 +92,7 @@ def alias_map(fn):
     return {k: v for k, v in val.items() if count.get(k) == 1 and k not in params and isinstance(v, (ast.Attribute, ast.Subscript, ast.Name))}
 
 
-def classify(target_expr, fn, cls, fresh, depth=0):
+def classify(target_expr, fn, cls, fresh, depth=0, where=None):
     r = root_name(target_expr)
     if r is None:
         return "tree"
@@ -97,7 +101,7 @@ def classify(target_expr, fn, cls, fresh, depth=0):
     if depth < 5:
         am = alias_map(fn)
         if r in am and isinstance(target_expr, (ast.Name, ast.Attribute, ast.Subscript, ast.Call)):
-            return classify(am[r], fn, cls, fresh, depth + 1)
+            return classify(am[r], fn, cls, fresh, depth + 1, where)
     if r == "self" and cls is not None and cls != "Node":
         # state of a non-tree object of the package (the per-call Rule object, a private cursor / matcher helper ...): only a
         # direct field of it - `self.x`, `self.x[i]` - counts; `self.x.y = ...` could reach a node held in a field
@@ -109,7 +113,81 @@ def classify(target_expr, fn, cls, fresh, depth=0):
         return "tree"
     if r in CALLER_LISTS:
         return "caller"
+    if where is not None and (where[0], where[1], r) in COLLECTOR_PARAMS:
+        return "caller"
     return "tree"
+
+
+def param_names(fn):
+    a = fn.args
+    return [x.arg for x in a.posonlyargs + a.args]
+
+
+def compute_collector_params(mods):
+    """greatest fixed point: a parameter is a caller-owned collector when the function has at least one call site in the package and
+    at EVERY call site the argument is a fresh local of the caller, None / omitted, or itself a collector parameter of the caller
+    (public collector parameters, CALLER_LISTS, are collectors by declaration).  Calls are resolved by simple name (over-approximate:
+    every function of that name must agree)."""
+    funcs = {}
+    for rel, fns in mods.items():
+        for q, (fn, cls) in fns.items():
+            funcs[(rel, q)] = (fn, cls)
+    by_name = {}
+    for (rel, q), (fn, cls) in funcs.items():
+        by_name.setdefault(q.split(".")[-1], []).append((rel, q))
+    def offset(fn, cls):
+        if cls is None:
+            return 0
+        decs = {d.id for d in fn.decorator_list if isinstance(d, ast.Name)}
+        return 0 if "staticmethod" in decs else 1
+    cand = set()
+    for (rel, q), (fn, cls) in funcs.items():
+        for p in param_names(fn)[offset(fn, cls):]:
+            cand.add((rel, q, p))
+    # call sites: callee simple name -> list of (caller key, call node)
+    sites = {}
+    for key, (fn, cls) in funcs.items():
+        for n in ast.walk(fn):
+            if isinstance(n, ast.Call):
+                nm = n.func.id if isinstance(n.func, ast.Name) else (n.func.attr if isinstance(n.func, ast.Attribute) else None)
+                if nm in by_name:
+                    sites.setdefault(nm, []).append((key, n))
+    fresh_cache = {k: fresh_locals(v[0]) for k, v in funcs.items()}
+    S = set(cand)
+    changed = True
+    while changed:
+        changed = False
+        for (rel, q, p) in list(S):
+            if p in CALLER_LISTS:
+                continue
+            fn, cls = funcs[(rel, q)]
+            ps = param_names(fn)
+            idx = ps.index(p) - offset(fn, cls)
+            calls = sites.get(q.split(".")[-1], [])
+            ok = bool(calls)
+            for caller, call in calls:
+                cfn, ccls = funcs[caller]
+                # a call written Class.method(obj, ...) or an unbound use shifts positions: be conservative
+                arg = None
+                for kw in call.keywords:
+                    if kw.arg == p:
+                        arg = kw.value
+                if arg is None:
+                    if any(isinstance(a, ast.Starred) for a in call.args) or any(kw.arg is None for kw in call.keywords):
+                        ok = False; break
+                    if idx < len(call.args):
+                        arg = call.args[idx]
+                if arg is None or (isinstance(arg, ast.Constant) and arg.value is None):
+                    continue
+                if isinstance(arg, ast.Name) and (arg.id in fresh_cache[caller] or (caller[0], caller[1], arg.id) in S
+                                                  or (arg.id in CALLER_LISTS and arg.id in param_names(cfn))):
+                    continue
+                if isinstance(arg, (ast.List, ast.Dict, ast.ListComp, ast.DictComp, ast.Set)):
+                    continue
+                ok = False; break
+            if not ok:
+                S.discard((rel, q, p)); changed = True
+    return S
 
 
 def sites_in(fn, qual, cls, rel):
@@ -119,7 +197,7 @@ def sites_in(fn, qual, cls, rel):
                and isinstance(n.targets[0], ast.Name) and isinstance(n.value, (ast.Attribute, ast.Subscript))}
     out = []
     def add(kind, expr, node):
-        out.append({"module": rel, "function": qual, "kind": kind, "stmt": ast.unparse(node)[:120], "class": classify(expr, fn, cls, fresh)})
+        out.append({"module": rel, "function": qual, "kind": kind, "stmt": ast.unparse(node)[:120], "class": classify(expr, fn, cls, fresh, 0, (rel, qual))})
     for n in ast.walk(fn):
         if isinstance(n, ast.Assign):
             for t in n.targets:
@@ -194,6 +272,18 @@ def inventory(repo):
                 continue
             mods[rel] = functions_of(tr)
             modrefs[rel] = module_level_refs(tr)
+    PACKAGE_CLASSES.clear(); COLLECTOR_PARAMS.clear()
+    for rel, tr_fns in mods.items():
+        pass
+    for root_dir2, _, files2 in os.walk(src):
+        for fn2 in files2:
+            rel2 = os.path.relpath(os.path.join(root_dir2, fn2), src).replace(os.sep, "/")
+            if fn2.endswith(".py") and rel2 in mods:
+                with open(os.path.join(root_dir2, fn2), encoding="utf-8") as f2:
+                    for n2 in ast.walk(ast.parse(f2.read())):
+                        if isinstance(n2, ast.ClassDef) and n2.name != "Node":
+                            PACKAGE_CLASSES.add(n2.name)
+    COLLECTOR_PARAMS.update(compute_collector_params(mods))
     # name-based closure over the whole package (code may be moved between modules and re-exported)
     index = {}
     for rel, fns in mods.items():
